@@ -105,7 +105,11 @@ import numpy as np
 from pysph.base.utils import get_particle_array
 from pysph.base.kernels import CubicSpline
 from pysph.sph.bc.inlet_outlet_manager import InletBase, OutletBase, InletInfo, OutletInfo
-kind, ref, nrm, length = %(kind)r, %(ref)r, %(nrm)r, %(length)r
+kind, ref, nrm, length, family = %(kind)r, %(ref)r, %(nrm)r, %(length)r, %(family)r
+if family == "hybrid":
+    from pysph.sph.bc.hybrid.inlet import Inlet as InletBase
+if family == "mirror":
+    from pysph.sph.bc.mirror.outlet import Outlet as OutletBase
 A, F = %(A)r, %(F)r      # zone array particles, fluid particles: dicts x y z u p
 def mk(name, P, tag):
     empty = not P
@@ -115,6 +119,7 @@ def mk(name, P, tag):
                             u=[p["u"] for p in P], p=[p["p"] for p in P], h=1.0, m=1.0, rho=1.0)
     pa.add_property("ioid", type="int"); pa.add_property("disp"); pa.add_property("uid", type="int")
     pa.uid[:] = [tag*100 + i for i in range(len(P))]
+    pa.add_constant("uref", [1.0])
     if empty:
         pa.remove_particles([0])
     return pa
@@ -179,12 +184,31 @@ def _vals(model, snap):
     return out
 
 
-def unit_inlet(n_in, n_f, normal, two_updates=False, timeout_ms=20000):
+FAMILIES = dict(
+    base=("pysph.sph.bc.inlet_outlet_manager", "InletBase", "OutletBase"),
+    hybrid=("pysph.sph.bc.hybrid", "inlet.Inlet", None),
+    mirror=("pysph.sph.bc.mirror", None, "outlet.Outlet"))
+
+
+def _family_class(family, which):
+    import importlib
+    pkg, icls, ocls = FAMILIES[family]
+    name = icls if which == "inlet" else ocls
+    if "." in name:
+        mod, name = name.split(".")
+        return getattr(importlib.import_module(pkg + "." + mod), name)
+    return getattr(importlib.import_module(pkg), name)
+
+
+def unit_inlet(n_in, n_f, normal, two_updates=False, timeout_ms=20000,
+               family="base"):
     common.use_repo_with_build()
     import pysph.sph.bc.inlet_outlet_manager as M
     import pysph.tools.sph_evaluator as SE
+    ICls = _family_class(family, "inlet")
     stats = Stats()
-    out = dict(unit="inlet n_in=%d n_fluid=%d normal=%s%s" % (
+    out = dict(unit="inlet%s n_in=%d n_fluid=%d normal=%s%s" % (
+        "" if family == "base" else " (%s family)" % family,
         n_in, n_f, normal, " two updates" if two_updates else ""),
         obligations=0, discharged=0, undecided=[])
     ref, nrm, length = zone(normal)
@@ -209,7 +233,12 @@ def unit_inlet(n_in, n_f, normal, two_updates=False, timeout_ms=20000):
         off_edge()
         info = types.SimpleNamespace(refpoint=ref, normal=nrm, length=length,
                                      dx=0.1)
-        obj = M.InletBase(inlet, fluid, info, None, 3)
+        if family == "hybrid":
+            import numpy
+            for pa_, nm in ((inlet, "i"), (fluid, "f")):
+                pa_.constants["uref"] = numpy.array([real("uref_" + nm)],
+                                                    dtype=object)
+        obj = ICls(inlet, fluid, info, None, 3)
         obj.update(0.0, 0.1, 1)
         mid = (snapshot(inlet), snapshot(fluid))
         if two_updates:
@@ -307,7 +336,7 @@ def unit_inlet(n_in, n_f, normal, two_updates=False, timeout_ms=20000):
                                                         str(len(normal)),
                                                         ncex[0]),
                             REPLAY % dict(
-                                kind="inlet",
+                                kind="inlet", family=family,
                                 ref=[float(model_value(model, to_real(q)))
                                      for q in ref],
                                 nrm=[float(model_value(model, to_real(q)))
@@ -317,7 +346,8 @@ def unit_inlet(n_in, n_f, normal, two_updates=False, timeout_ms=20000):
                                 F=_vals(model, before[1])))
                         common.triage(PID, out, "%s: update %d: %s" % (
                             out["unit"], si + 1, what), p,
-                            dict(unit="InletBase.update"), soft=True)
+                            dict(unit="%s.update" % ICls.__name__),
+                            soft=True)
                     else:
                         out["undecided"].append(what)
     out["stats"] = stats.as_dict()
@@ -325,14 +355,15 @@ def unit_inlet(n_in, n_f, normal, two_updates=False, timeout_ms=20000):
     return out
 
 
-def unit_outlet(n_out, n_f, normal, timeout_ms=20000):
+def unit_outlet(n_out, n_f, normal, timeout_ms=20000, family="base"):
     common.use_repo_with_build()
     import pysph.sph.bc.inlet_outlet_manager as M
     import pysph.tools.sph_evaluator as SE
+    OCls = _family_class(family, "outlet")
     stats = Stats()
-    out = dict(unit="outlet n_out=%d n_fluid=%d normal=%s" % (n_out, n_f,
-                                                              normal),
-               obligations=0, discharged=0, undecided=[])
+    out = dict(unit="outlet%s n_out=%d n_fluid=%d normal=%s" % (
+        "" if family == "base" else " (%s family)" % family, n_out, n_f,
+        normal), obligations=0, discharged=0, undecided=[])
     ref, nrm, length = zone(normal)
     ncex = [0]
 
@@ -353,7 +384,7 @@ def unit_outlet(n_out, n_f, normal, timeout_ms=20000):
         before = (snapshot(outlet), snapshot(fluid))
         info = types.SimpleNamespace(refpoint=ref, normal=nrm, length=length,
                                      props_to_copy=list(COPY))
-        obj = M.OutletBase(outlet, fluid, info, None, 3)
+        obj = OCls(outlet, fluid, info, None, 3)
         obj.update(0.0, 0.1, 1)
         return before, (snapshot(outlet), snapshot(fluid))
 
@@ -421,7 +452,7 @@ def unit_outlet(n_out, n_f, normal, timeout_ms=20000):
                             n_out, n_f, normal.strip("+-") +
                             str(len(normal)), ncex[0]),
                         REPLAY % dict(
-                            kind="outlet",
+                            kind="outlet", family=family,
                             ref=[float(model_value(model, to_real(q)))
                                  for q in ref],
                             nrm=[float(model_value(model, to_real(q)))
@@ -450,7 +481,9 @@ def main():
         "pre-state); z3 decides the per-particle accounting on every path")
     rep.functions = [common.func_ref(f) for f in (
         M.InletBase.update, M.OutletBase.update, M.IOEvaluate.initialize,
-        M.IOEvaluate.loop, M.InletBase.initialize, M.OutletBase.initialize)]
+        M.IOEvaluate.loop, M.InletBase.initialize, M.OutletBase.initialize,
+        _family_class("hybrid", "inlet").update,
+        _family_class("mirror", "outlet").update)]
     units = []
     sizes = [(1, 0), (1, 1), (2, 1)] if t == "quick" else \
         [(1, 0), (1, 1), (2, 1), (2, 2), (3, 1)]
@@ -465,12 +498,23 @@ def main():
                   dict(n_in=1, n_f=0, normal="+x", two_updates=True)))
     units.append(("vf.props.c16", "unit_inlet",
                   dict(n_in=2, n_f=1, normal="-x", two_updates=True)))
+    # the two families that carry their own copy of update()
+    for nrm in normals:
+        for (a, f) in sizes[:3]:
+            units.append(("vf.props.c16", "unit_inlet",
+                          dict(n_in=a, n_f=f, normal=nrm, family="hybrid")))
+            units.append(("vf.props.c16", "unit_outlet",
+                          dict(n_out=a, n_f=max(f, 1), normal=nrm,
+                               family="mirror")))
     rep.bounds = dict(array_sizes=sizes, normals=normals,
                       updates="one update from an arbitrary pre-state "
                       "(inductive step) + two consecutive updates with "
                       "arbitrary motion in between",
-                      families="the five shipped families share "
-                      "InletBase/OutletBase.update (none overrides it)")
+                      families="InletBase/OutletBase.update (used by the "
+                      "characteristic, donothing and mod_donothing families "
+                      "and the mirror inlet / hybrid outlet) and the two "
+                      "overriding copies: hybrid Inlet.update and mirror "
+                      "Outlet.update (without ghost array)")
     rep.assumptions = [
         "ParticleArray is a record-list model (extract_particles, "
         "remove_particles, attribute views) whose conformance is C06's "
